@@ -216,6 +216,9 @@ def pairs(tier):
         if not c.name.endswith('-base'): continue
         stem = c.name[:-len('base')]
         for t in EQUIVALENT:
+            # with leakage terms, a full matrix also carries the leakage readings of the unconnected ports, which the abbreviated one
+            # omits: not the same information, so not a C17 pair
+            if t.startswith('abbrev') and c.typ in (TE10, UE10, UE14, E12): continue
             if stem + t in names: out.append((c.name, stem + t))
     return out
 
